@@ -63,8 +63,33 @@ def renderOuts (outs : List Iter.Out) : String :=
       | .done => " ."
       | .err => " E")) "ok"
 
+/-- drive an iterator like harness `hIter`: the run ends at the third end report; after the first
+    error exactly two more calls are made -/
+def collectX : Nat → Nat → Option Nat → Iter.AnyIt → List Iter.Out
+  | 0, _, _, _ => []
+  | fuel + 1, dones, post, it =>
+    if post == some 0 then [] else
+    let post' := post.map (· - 1)
+    match it.next with
+    | (.err, it') => .err :: collectX fuel dones (match post' with | none => some 2 | p => p) it'
+    | (.done, it') => if dones + 1 ≥ 3 then [.done] else .done :: collectX fuel (dones + 1) post' it'
+    | (o, it') => o :: collectX fuel dones post' it'
+
 def runIter (t : Ty) (n : Node) (ro : Bool) : String :=
-  renderOuts (Iter.collect 100000 0 (Iter.start t n ro))
+  renderOuts (collectX 100000 0 none (Iter.start t n ro))
+
+/-- the tokens of an iterator observation grouped per `Next()` call (`elems`: element iterators,
+    whose items are `|`-introduced token groups; bit iterators have one token per call) -/
+def iterGroups (elems : Bool) (toks : List String) : List (List String) :=
+  let starts (t : String) : Bool :=
+    if elems then t.startsWith "|" || t == "E" || t == "." else true
+  let rec go (cur : List String) (acc : List (List String)) : List String → List (List String)
+    | [] => (if cur.isEmpty then acc else cur.reverse :: acc).reverse
+    | t :: ts =>
+      if t == "resumed" then go cur acc ts
+      else if starts t then go [t] (if cur.isEmpty then acc else cur.reverse :: acc) ts
+      else go (t :: cur) acc ts
+  go [] [] toks
 
 /-- what indexed access to the plain value implies -/
 def specIter (t : Ty) (v : Val) : String :=
@@ -254,10 +279,16 @@ def step (s : HState) (name : String) (args impl : List String) : Except String 
         if " ".intercalate impl == sp then "ok"
         else if s.partialTree then
           -- a prefix of the right components followed by an error is acceptable; a wrong component is not
-          let spToks := (sp.splitOn " ").filter (· ≠ "")
-          let isPrefixThenErr := impl.getLast? == some "E" && (impl.dropLast.zip spToks).all (fun (a, b) => a == b) && impl.length - 1 ≤ spToks.length
-          let xOk := impl.any (· == "|X")
-          if isPrefixThenErr || xOk then "ok" else s!"FAIL:partial-iterator-yields-different-data:spec={sp.take 200}"
+          -- call by call: the right component (or the end report, from the length on), or an error
+          let elems := match o.ty with | .bitvector _ | .bitlist _ => false | _ => true
+          let spG := iterGroups elems (((sp.splitOn " ").filter (· ≠ "")).drop 1)
+          let imG := iterGroups elems (impl.drop 1)
+          let okAt (k : Nat) (g : List String) : Bool :=
+            g == ["E"] || g == ["|X"] || g == spG.getD k ["."]
+          let rec chk (k : Nat) : List (List String) → Bool
+            | [] => true
+            | g :: gs => okAt k g && chk (k + 1) gs
+          if impl.head? == some "ok" && chk 0 imG then "ok" else s!"FAIL:partial-iterator-yields-different-data:spec={sp.take 200}"
         else s!"FAIL:iterator-differs-from-indexed-access:spec={sp.take 200}"
       pure (s, m, v)
   | _, _ => throw s!"bad history op {name}"
